@@ -77,10 +77,37 @@ def run(ctx):
         ctx.undecided('R07.1', fi.qualname, 'range check', str(e), where=where(fi))
 
     # ---------------------------------------------------------------- R07.2 loop variant (structure)
-    loops = [n for n in walk_no_nested(fi.node) if isinstance(n, ast.While)]
-    if not loops:
-        raise AnchorMissing('bisection loop in inv_arclength')
-    loop = loops[-1]
+    # the bisection loop lives in inv_arclength or in a function it reaches (a helper it was moved to, an ilength method it dispatches to)
+    entry_fi = fi
+    seen_f = {fi.qualname}
+    work = [fi]
+    cands = []
+    while work:
+        f_ = work.pop(0)
+        for n in walk_no_nested(f_.node):
+            if isinstance(n, ast.While) and any(isinstance(st_, ast.Assign) and isinstance(st_.targets[0], ast.Name) and _is_midpoint(st_.value)
+                                                for st_ in n.body):
+                cands.append((f_, n))
+            if isinstance(n, ast.Call):
+                tgt = None
+                if isinstance(n.func, ast.Name):
+                    r_ = mdl.resolve_global(f_.module, n.func.id)
+                    tgt = r_[1] if r_ and r_[0] == 'func' else None
+                elif isinstance(n.func, ast.Attribute) and n.func.attr == 'ilength':
+                    for cn_ in ('Line', 'QuadraticBezier', 'CubicBezier', 'Arc', 'Path'):
+                        m_ = mdl.cls('path.' + cn_).methods.get('ilength')
+                        if m_ is not None and m_.qualname not in seen_f:
+                            seen_f.add(m_.qualname)
+                            work.append(m_)
+                if tgt is not None and tgt.qualname not in seen_f and len(seen_f) < 40:
+                    seen_f.add(tgt.qualname)
+                    work.append(tgt)
+    if not cands:
+        loops = [n for n in walk_no_nested(fi.node) if isinstance(n, ast.While)]
+        if not loops:
+            raise AnchorMissing('bisection loop in inv_arclength (or a function it reaches)')
+        cands = [(fi, loops[-1])]
+    fi, loop = next((c for c in cands if c[0] is entry_fi), cands[0])
     cfg = CFG(fi.node)
     probs = []
     counter = None
@@ -120,10 +147,20 @@ def run(ctx):
                 curve.attrs['length'] = ExtRef('__len__')
                 it.ext_hooks['__len__'] = lambda it2, a, k: Rat.sym('S_t')
                 env = Env(module=fi.module)
-                env.vars.update({'curve': curve, 's': S, 's_tol': Rat.sym('tol'), 'maxits': Rat.sym('maxits'), 'error': Rat.sym('err'),
-                                 'min_depth': Rat.sym('md'), lo_name: LO, hi_name: HI, (counter or 'iteration'): Rat.sym('it0'),
-                                 'curve_length': L})
-                it.func_stack.append(Q)
+                # parameters by role: the first one is the curve, the others are recognised by their public names; anything else the
+                # loop's function binds before the loop is an unknown symbol
+                params_ = fi.params()
+                known = {'s': S, 's_tol': Rat.sym('tol'), 'maxits': Rat.sym('maxits'), 'error': Rat.sym('err'), 'min_depth': Rat.sym('md'),
+                         'curve_length': L}
+                for pn_ in params_[1:]:
+                    env.vars[pn_] = known.get(pn_, Rat.sym('par_' + pn_))
+                for nm_ in known:
+                    env.vars.setdefault(nm_, known[nm_])
+                if params_:
+                    env.vars[params_[0]] = curve
+                env.vars.setdefault('curve', curve)
+                env.vars.update({lo_name: LO, hi_name: HI, (counter or 'iteration'): Rat.sym('it0')})
+                it.func_stack.append(fi.qualname)
                 try:
                     for st in loop.body:
                         try:
@@ -152,10 +189,11 @@ def run(ctx):
                 ctx.undecided('R07.3', fi.qualname, case, str(e), where=where(fi, loop))
 
     # ---------------------------------------------------------------- R07.4 Path branch
-    for k in range(3):
+    fi = entry_fi
+    for entry, k in [(e_, k_) for e_ in ('inv_arclength', 'Path.ilength') for k_ in range(3)]:
         rec = {}
 
-        def th4(it, k=k, rec=rec):
+        def th4(it, k=k, rec=rec, entry=entry):
             rec.clear()
             segs = [it.construct('path.Line', Rat.csym('A%d' % j), Rat.csym('B%d' % j)) for j in range(3)]
             p = it.construct('path.Path', *segs)
@@ -163,21 +201,25 @@ def run(ctx):
             poly.POSITIVE.update({'len0', 'len1', 'len2'})
             it.call_hooks['path.Line.length'] = lambda it2, a, kw: lens[[i for i, x in enumerate(segs) if x is a[0]][0]]
             it.call_hooks['path.Path.length'] = lambda it2, a, kw: lens[0] + lens[1] + lens[2]
-            depth = [0]
 
             def inner(it2, a, kw):
-                depth[0] += 1
-                if depth[0] == 1:
-                    return NotImplemented
+                if a and a[0] is p:
+                    return NotImplemented          # the call on the path itself runs the real code; only the recursion is summarised
                 rec['inner'] = (a, dict(kw))
                 return Rat.sym('TT')
             it.call_hooks[Q] = inner
+            # a segment's own ilength (when the Path branch recurses through the method) is the same recursion
+            it.call_hooks['path.Line.ilength'] = inner
 
             def t2T(it2, a, kw):
                 rec['t2T'] = a[1:]
                 return Rat.sym('RESULT')
             it.call_hooks['path.Path.t2T'] = t2T
-            r = it.call(it.closure_of(Q), [p, S], {'s_tol': Rat.sym('tol'), 'maxits': Rat.sym('mi'), 'error': Rat.sym('err'), 'min_depth': Rat.sym('md')})
+            kws = {'s_tol': Rat.sym('tol'), 'maxits': Rat.sym('mi'), 'error': Rat.sym('err'), 'min_depth': Rat.sym('md')}
+            if entry == 'inv_arclength':
+                r = it.call(it.closure_of(Q), [p, S], kws)
+            else:
+                r = it.call_method(p, 'ilength', S, **kws)
             return r, dict(rec), segs, lens
 
         def judge4(v, k=k):
@@ -201,7 +243,8 @@ def run(ctx):
             if not t or not (isinstance(t[0], int) and t[0] == j):
                 return False, 't2T must be given the segment INDEX %d (got %r): a segment object is looked up by equality and finds the first equal segment' % (j, t[0] if t else None)
             return decide_all_equal([('t handed to t2T', t[1], Rat.sym('TT')), ('result', r, Rat.sym('RESULT'))])
-        ob('R07.4').run(fi, 'Path branch when s falls on segment %d' % k, th4, judge4, allowed_raises=('ValueError', 'AssertionError'))
+        ob('R07.4').run(fi if entry == 'inv_arclength' else mdl.func('path.Path.ilength'), 'Path branch (entered through %s) when s falls on segment %d' % (entry, k),
+                        th4, judge4, allowed_raises=('ValueError', 'AssertionError'))
 
     # ---------------------------------------------------------------- R07.5 delegation (or an equivalent own contract)
     for cname in ('Line', 'QuadraticBezier', 'CubicBezier', 'Arc', 'Path'):
@@ -222,22 +265,38 @@ def run(ctx):
             else:
                 self_ = it.construct('path.Path', it.construct('path.Line', *cpoints(2)))
             it.call_hooks['path.%s.length' % cname] = lambda it2, a, kw: L
+            if cname == 'Path':
+                it.call_hooks['path.Line.length'] = lambda it2, a, kw: L      # its only segment: the same length
             r = it.call_method(self_, 'ilength', S, s_tol=Rat.sym('tol'), maxits=Rat.sym('mi'), error=Rat.sym('err'), min_depth=Rat.sym('md'))
-            return r, dict(rec), self_, path_sign(it, S), path_sign(it, S - L)
+            return r, dict(rec), self_, path_sign(it, S), path_sign(it, S - L), it, cname
 
         def judge5(v):
-            r, rec, self_, s_sign, sl_sign = v
-            if 'a' not in rec:
+            r, rec, self_, s_sign, sl_sign, it_, cname_ = v
+            own = 'a' not in rec
+            if not own:
+                a, kw = rec['a'], rec['kw']
+                params = ['curve', 's', 's_tol', 'maxits', 'error', 'min_depth']
+                bound = dict(zip(params, a))
+                bound.update(kw)
+                if bound.get('curve') is not self_:
+                    segs_ = self_.attrs.get('_segments') if isinstance(self_, Obj) else None
+                    if segs_ is not None and any(bound.get('curve') is x for x in segs_):
+                        return True, ''        # the Path branch lives in the method and recurses on a segment: judged by R07.4 through this entry
+                    return False, 'first argument is not self'
+            if own:
                 # not delegated: the method must honour the contract itself on this path
                 inside = s_sign <= frozenset('0+') and sl_sign <= frozenset('-0')
-                return (False, 'does not delegate to inv_arclength and returns a result on a path that has not established 0 <= s <= L'
-                        ) if not inside else (None, 'own implementation instead of inv_arclength: inverse relation not comparable')
-            a, kw = rec['a'], rec['kw']
-            params = ['curve', 's', 's_tol', 'maxits', 'error', 'min_depth']
-            bound = dict(zip(params, a))
-            bound.update(kw)
-            if bound.get('curve') is not self_:
-                return False, 'first argument is not self'
+                if not inside:
+                    return False, 'does not delegate to inv_arclength and returns a result on a path that has not established 0 <= s <= L'
+                if s_sign == frozenset('0') or sl_sign == frozenset('0'):
+                    want_ = 0 if s_sign == frozenset('0') else 1
+                    ok_ = to_rat(r).equals(Rat.const(want_))
+                    return ok_, '' if ok_ else 'own implementation returns %s at s = %s' % (short(r, 30), '0' if want_ == 0 else 'L')
+                if cname_ == 'Line':
+                    # a Line's arc length is linear in t: the own answer must be s / L (0 and 1 at the ends)
+                    ok_ = it_.trace.reduce(to_rat(r) * L - S).is_zero()
+                    return ok_, '' if ok_ else 'own closed form returns %s, not s/L' % short(r, 40)
+                return None, 'own implementation instead of inv_arclength: inverse relation not comparable'
             return decide_all_equal([('s', bound.get('s', 0), S), ('s_tol', bound.get('s_tol', 0), Rat.sym('tol')), ('maxits', bound.get('maxits', 0), Rat.sym('mi')),
                                      ('error', bound.get('error', 0), Rat.sym('err')), ('min_depth', bound.get('min_depth', 0), Rat.sym('md')),
                                      ('result', r, Rat.sym('R'))])
